@@ -15,6 +15,8 @@ Clauses (property C09):
                commands executed are a subsequence of these lines (a line is dropped only when its own input task failed)
   callouts     every scheduled call_out fired, unless its object was destructed (or shutdown)
   leak         no connection record outlives its user (slots occupied at the end = users still connected)
+  disconnect   the driver tells a user object `net_dead` only when that user's own client went away: events of other
+               connections (hang-ups, errors, accepts arriving in the same poll) never cost a user its connection
 -/
 import NV.C09.Model
 
@@ -152,6 +154,18 @@ def clauseRefs (es : List Ev) : List String :=
     | .refs m x => if m == 0 && x == 0 then none else some s!"refs master={m} simul_efun={x}"
     | _ => none)
 
+/-- clause `disconnect`: `net_dead` is applied only to users whose own client closed or reset the connection
+    (`clients` / `users` pair every scripted client with the user object its connection was given) -/
+def clauseDisconnect (x : Expect) (es : List Ev) : List String :=
+  let clients := (if x.console then [0] else []) ++ x.conns
+  (clients.zip (usersOfConnects es)).filterMap (fun (c, ou) =>
+    match ou with
+    | none => none
+    | some u =>
+      if es.contains (.tNetdead u) && !x.closed.contains c then
+        some s!"disconnect {u.name} lost its connection although client c{c} never hung up"
+      else none)
+
 def judgeEv (x : Expect) (es : List Ev) : List String :=
   if !(clauseCrash es).isEmpty then clauseCrash es else
   let ex := hasExit es
@@ -191,6 +205,6 @@ def judgeEv (x : Expect) (es : List Ev) : List String :=
     | some n =>
       let live := (liveUsers [] es).length
       if n > live then [s!"leaked-conn slots={n} live-users={live}"] else []
-  v1 ++ v2 ++ v3 ++ v4 ++ v5 ++ v6 ++ v7 ++ clauseRefs es
+  v1 ++ v2 ++ v3 ++ v4 ++ v5 ++ v6 ++ v7 ++ clauseRefs es ++ clauseDisconnect x es
 
 end NV.C09
